@@ -375,10 +375,55 @@ def run_response(c):
         H = lcapy.transfer(H)
     elif c.get('wrap') == 'voltage':
         H = lcapy.voltage(H)
-    tv = np.linspace(0, float(Fraction(c['T'])), int(c['N']))
-    x = np.ones(len(tv)) if c['input'] == 'step' else (tv ** 2 if c['input'] == 'quad' else tv.copy())
-    y = H.response(x, tv, method=c['method'])
-    return {'y': [float(u) for u in y], 'cls': type(H).__name__}
+    if 't0' not in c:
+        tv = np.linspace(0, float(Fraction(c['T'])), int(c['N']))
+        x = np.ones(len(tv)) if c['input'] == 'step' else (tv ** 2 if c['input'] == 'quad' else tv.copy())
+        y = H.response(x, tv, method=c['method'])
+        return {'y': [float(u) for u in y], 'cls': type(H).__name__}
+    # time window [t0, t0 + T] that need not start at 0; the input is switched on at t1 >= t0 (a sample instant), so it
+    # vanishes before the window and the zero initial state response() assumes is the true one
+    t0, t1, T, N = float(Fraction(c['t0'])), float(Fraction(c['t1'])), float(Fraction(c['T'])), int(c['N'])
+    tv = np.linspace(t0, t0 + T, N)
+    on = tv >= t1 - 1e-9
+    if c['input'] == 'step':
+        x = np.where(on, 1.0, 0.0)
+    elif c['input'] == 'expstep':
+        x = np.where(on, np.exp(-float(Fraction(c['b'])) * (tv - t1)), 0.0)
+    else:
+        raise ValueError('input ' + str(c['input']))
+    kw = {'alpha': float(Fraction(c['alpha']))} if 'alpha' in c else {}
+    # record what the delayed output is interpolated from: arguments of scipy.interpolate.interp1d and of the call of the
+    # interpolant (only the arguments are observed; the real interp1d does the work)
+    import scipy.interpolate as si
+    rec = []
+    real = si.interp1d
+
+    class Spy:
+        def __init__(self, xs, ys, *a, **k):
+            self.f = real(xs, ys, *a, **k)
+            self.e = {}
+            if np.ndim(xs) == 1 and np.ndim(ys) == 1:
+                self.e = {'xs': [float(u) for u in xs], 'ys': [float(u) for u in ys], 'args': len(a),
+                          'kw': {q: repr(v) for q, v in sorted(k.items())}}
+                rec.append(self.e)
+
+        def __call__(self, q):
+            r = self.f(q)
+            if self.e and np.ndim(q) <= 1:
+                self.e['q'] = [float(u) for u in np.atleast_1d(q)]
+                self.e['out'] = [float(u) for u in np.atleast_1d(r)]
+            return r
+    import scipy.signal      # noqa: F401  (imported before the spy is installed: scipy.stats builds interpolants at import time)
+    si.interp1d = Spy
+    try:
+        y = H.response(x, tv, method=c['method'], **kw)
+    finally:
+        si.interp1d = real
+    out = {'y': [float(u) for u in y], 'cls': type(H).__name__, 'tv': [float(u) for u in tv], 'x': [float(u) for u in x]}
+    if rec and c.get('interp'):
+        out['interp'] = rec
+    out['ninterp'] = len(rec)
+    return out
 
 
 def main():
